@@ -94,7 +94,7 @@ def slim(e):
 def trace_cfg(transport, residue, short, dialresets, body, ctxmode="ignored"):
     return ("SPECIFICATION TSpec\nCONSTANTS\n  Transport = \"%s\"\n  ResidueAfterFailure = %s\n  ShortCookieRead = %s\n"
             "  DialResetsData = %s\n  Alpns = {}\n  Alphabet = {}\n  CutRecs = {}\n  MaxRecs = 0\n  MaxDials = 0\n"
-            "  MaxCalls = 0\n  MaxStore = 0\n  CtxMode = \"%s\"\n  MaxStalls = 0\n%s\nPOSTCONDITION Consumed\n"
+            "  MaxCalls = 0\n  MaxStore = 0\n  CtxMode = \"%s\"\n  MaxStalls = 0\n  StaleNextHop = FALSE\n%s\nPOSTCONDITION Consumed\n"
             % (transport, residue, short, dialresets, ctxmode, body))
 
 
@@ -165,7 +165,24 @@ def classify(inv, e):
             else "of-another-session"
         return "%s keys %s" % (src, kind)
     if inv == "TDestination":
-        return "%s %s server=%s port=%s" % (src, e["via"], e["ret"]["server"], e["ret"]["port"])
+        # python twin of NtsKe!NamedServers / NamedPorts, used only to name the conjunct of Destination that fails
+        recs = e["served"]["recs"] if e["served"]["cut"] == "none" else e["served"]["recs"][:-1]
+        recs = recs[:recs.index("eom")] if "eom" in recs else recs
+        srvs = {dict(sA="A", sB="B", sH="host")[r] for r in recs if r in ("sA", "sB", "sH")} or {"host"}
+        ports = {dict(pA=4001, pB=4002)[r] for r in recs if r in ("pA", "pB")} or {10123 if src == "quic" else 123}
+        named = lambda x: x["server"] in srvs and x["port"] in ports
+        d = e["dest"]
+        bad = []
+        if e["dialed"] and not named(e["ret"]):
+            bad.append("returned-data")
+        if d["sent"] and e["dialed"] and not named(d):
+            bad.append("addressed-to")
+        if d["sent"] and e["dialed"] and not named(d["hop"]):
+            bad.append("handed-to")
+        kind = "+".join(k for k, rs in (("host", ("sA", "sB", "sH")), ("port", ("pA", "pB"))) if any(r in rs for r in recs))
+        return "%s %s %s %s (exchange names %s)" % (
+            src, e["via"], d["net"] if d["sent"] else "-", "+".join(bad) or "endpoint-of-an-earlier-exchange",
+            (kind or "no endpoint") if e["dialed"] else "nothing: no exchange in this call")
     if inv == "TIgnoresNonCritical":
         return "%s result differs from the history without the non-critical records (ok %s/%s)" % (
             src, e["ok"], e["twin"]["ok"])
@@ -198,6 +215,54 @@ def census_text(c):
     return ("%(histories)d histories / %(ops)d exchanges (at a record boundary %(bnd)d, inside a header %(hdr)d, inside a "
             "body %(body)d; cookie records after the stall in %(cookie_after)d, End of Message after it in "
             "%(complete_after)d; %(walks)d multi-call walks, further generated calls after the stalled one in %(followed)d)" % c)
+
+
+NAME_RECS = dict(sA="host", sB="host", sH="host", pA="port", pB="port")
+
+
+def naming_census(cases):
+    """how the generated histories exercise the NTP client's use of the exchange result: exchanges (by an
+    acceptable message: AEAD 15, >= 1 cookie, End of Message, nothing that stops ReadData) made by the NTP client
+    ("measure"), by what they name; and measure calls served from the cache after such an exchange"""
+    c = dict(histories=0, measure_ops=0, acceptable=0, none=0, host=0, port=0, both=0, two_hosts=0, cached_after=0,
+             rekey_after=0)
+    for case in cases:
+        h = case["h"]
+        hit = False
+        prev = None      # what the last acceptable exchange of this history named
+        for op in h:
+            if op["op"] != "fetch":
+                continue
+            m = op.get("via") == "measure"
+            c["measure_ops"] += m
+            hit |= m
+            if op["alpn"] == "dflt":
+                c["cached_after"] += m and prev is not None and prev != "none"
+                continue
+            recs = op["recs"] if op["cut"] == "none" else op["recs"][:-1]
+            ok = op["alpn"] == "ntske/1" and "eom" in recs and op.get("stallw", "none") == "none"
+            recs = recs[:recs.index("eom")] if "eom" in recs else recs
+            ok = ok and "a15" in recs and "ck" in recs and "aX" not in recs and \
+                not any(r in ("e0", "e1", "e2", "eX", "uc", "warn") for r in recs)
+            if not ok:
+                continue
+            kinds = {NAME_RECS[r] for r in recs if r in NAME_RECS}
+            k = "both" if len(kinds) == 2 else (kinds.pop() if kinds else "none")
+            if m:
+                c["acceptable"] += 1
+                c[k] += 1
+                c["two_hosts"] += len({r for r in recs if r in ("sA", "sB", "sH")}) > 1
+                c["rekey_after"] += prev is not None and prev != k
+            prev = k
+        c["histories"] += hit
+    return c
+
+
+def naming_text(c):
+    return ("%(histories)d histories with %(measure_ops)d calls made by the NTP client; %(acceptable)d of them run an exchange "
+            "with an acceptable message that names: no endpoint %(none)d, a host %(host)d, a port %(port)d, both %(both)d "
+            "(two different hosts %(two_hosts)d); requests from cached data after an exchange that named something "
+            "%(cached_after)d; exchanges after one that named something else %(rekey_after)d" % c)
 
 
 def corrupt(evs, what):
@@ -329,6 +394,15 @@ def _run(ctx):
     f_qgen = jobs.submit(ctx.tlc, "NtsKeGen", "NtsKe_qgen.cfg", workers=1, timeout=600, tag="gen:quic")
     f_qdec = jobs.submit(ctx.tlc, "NtsKeGen", "NtsKe_qgendec.cfg", workers=1, timeout=600, tag="gen:quic-decorated")
     f_qsim = jobs.submit(sim, "NtsKe_qsim.cfg", nqsim)
+    # WHERE THE REQUEST GOES: acceptable messages that name no endpoint / a host / a port / both, every call made by
+    # the NTP client (SCION: MeasureClockOffsetSCION; IP: MeasureClockOffsetIP) with its configured remote address
+    f_qname = jobs.submit(ctx.tlc, "NtsKeGen", "NtsKe_qgenname.cfg" if q else "NtsKe_qgennamedeep.cfg", workers=1,
+                          timeout=600, tag="gen:quic-naming")
+    f_name = jobs.submit(ctx.tlc, "NtsKeGen", "NtsKe_genname.cfg" if q else "NtsKe_gennamedeep.cfg", workers=1,
+                         timeout=600, tag="gen:naming")
+    # ... and two exchanges in a row, each naming no endpoint / a host / a port
+    f_qname2 = jobs.submit(ctx.tlc, "NtsKeGen", "NtsKe_qgenname2.cfg", workers=1, timeout=600, tag="gen:quic-naming2")
+    f_name2 = jobs.submit(ctx.tlc, "NtsKeGen", "NtsKe_genname2.cfg", workers=1, timeout=600, tag="gen:naming2")
 
     cases = ctx.emitted(f_gen.result()["out"])
     nexh = len(cases)
@@ -340,6 +414,8 @@ def _run(ctx):
     cases += dec
     stall = ctx.emitted(f_stall.result()["out"])
     cases += stall
+    name = ctx.emitted(f_name.result()["out"]) + ctx.emitted(f_name2.result()["out"])
+    cases += name
     nexh = len(cases)
     for f in f_sim:
         cases += f.result()
@@ -348,6 +424,8 @@ def _run(ctx):
     qcases = ctx.emitted(f_qgen.result()["out"]) + ctx.emitted(f_qdec.result()["out"])
     qstall = ctx.emitted(f_qstall.result()["out"])
     qcases += qstall
+    qname = ctx.emitted(f_qname.result()["out"]) + ctx.emitted(f_qname2.result()["out"])
+    qcases += qname
     nqexh = len(qcases)
     qcases += f_qsim.result()
     qp = ctx.path("qcases.ndjson")
@@ -362,6 +440,14 @@ def _run(ctx):
         raise vlib.Inconclusive("the generators exercise the stall dimension too little: %s" % census_text(sg))
     if len(qstall) < 100 or qsg["cookie_after"] < 30:
         raise vlib.Inconclusive("the QUIC generators exercise the stall dimension too little: %s" % census_text(qsg))
+    # vacuity guard for the dimension "what the NTP client does with the endpoint the exchange names", again on what
+    # the SPECIFICATION generated
+    ng, qng = naming_census(cases), naming_census(qcases)
+    ctx.log("the NTP client makes the call (where the request goes): IP " + naming_text(ng) + "; SCION " + naming_text(qng))
+    for g, lbl in ((ng, "IP"), (qng, "SCION")):
+        if g["none"] < 20 or min(g["host"], g["port"], g["both"]) < 100 or g["two_hosts"] < 20 or g["cached_after"] < 100 \
+                or g["rekey_after"] < 100:
+            raise vlib.Inconclusive("the generators exercise the naming dimension too little (%s): %s" % (lbl, naming_text(g)))
     # ---- 1. design level (independent of each other and of the rest: started now: they run while the driver does)
     f_exh = jobs.submit(ctx.tlc, "NtsKeMC", "NtsKe_exh.cfg" if q else "NtsKe_deep.cfg", timeout=300 if q else 1200)
     f_cov = jobs.submit(ctx.tlc, "NtsKeMC", "NtsKe_cov.cfg", workers=2, timeout=240, coverage=True, tag="coverage")
@@ -372,6 +458,8 @@ def _run(ctx):
     # peer does ("ignored"); the variant that leaves a reader behind ("abandons") is a spec self-test
     f_ctx = [jobs.submit(ctx.tlc, "NtsKeMC", cfg, workers=4, timeout=300 if q else 900, tag="deadline:" + cfg)
              for cfg in (("NtsKe_ctx_exh.cfg",) if q else ("NtsKe_ctx_deep.cfg", "NtsKe_ctx_igndeep.cfg"))]
+    f_hop = jobs.submit(ctx.tlc, "NtsKeMC", "NtsKe_quic_stalehop.cfg", workers=2, timeout=240, allow_violation=True,
+                        tag="quic:stale-next-hop")
     f_aban = jobs.submit(ctx.tlc, "NtsKeMC", "NtsKe_ctx_abandons.cfg", workers=2, timeout=240, allow_violation=True,
                          tag="deadline:self-test")
     # ---- 3. the real code (while the exhaustive run may still be going on)
@@ -428,6 +516,11 @@ def _run(ctx):
         raise vlib.Inconclusive("spec self-test: the variant with CtxMode = \"abandons\" (the call returns at the deadline, a "
                                 "reader left behind keeps filling Fetcher.data) should violate NoResidue, TLC says %s" % ab["violated"])
     info.append("TLS, CtxMode = \"abandons\": NoResidue")
+    hp = f_hop.result()
+    if hp["violated"] != "Destination":
+        raise vlib.Inconclusive("spec self-test: the variant with StaleNextHop = TRUE (SCION request handed to the configured "
+                                "host and port) should violate Destination, TLC says %s" % hp["violated"])
+    info.append("QUIC/SCION, StaleNextHop = TRUE: Destination")
     ctx.notes.append("spec self-test: the old-switch variants of NtsKe.tla violate the property section on the "
                      "specification (information only): " + "; ".join(info))
     dl = [f.result() for f in f_ctx]
